@@ -1,5 +1,4 @@
 import PyecoreModel.Model.Static
-import PyecoreModel.Properties.C20
 /-!
 # C13 — static and dynamic definitions of a metamodel are interchangeable
 
